@@ -55,7 +55,7 @@ THEOREMS = {
               "FlooVerif.C10.matchLists_count_mismatch", "FlooVerif.C10.matchLists_not_dividing", "FlooVerif.C10.matchLists_ok_lengths", "FlooVerif.C10.reject_duplicate_endpoint_names",
               "FlooVerif.C10.reject_duplicate_router_names", "FlooVerif.C10.reject_unidirectional",
               "FlooVerif.C10.reject_addr_width_mismatch") +
-           _t("C10More", "FlooVerif.C10M.addEdge_duplicate", "FlooVerif.C10M.connectPairs_duplicate", "FlooVerif.C10M.place_taken", "FlooVerif.C10M.place_out_of_range", "FlooVerif.C10M.reindex_unbased", "FlooVerif.C10M.niRanges_array_unbased", "FlooVerif.C10M.genSam_beyond_width", "FlooVerif.C10M.genSam_overlap", "FlooVerif.C10M.compileNi_unconnected", "FlooVerif.C10M.compileNis_unconnected") +
+           _t("C10More", "FlooVerif.C10M.addEdge_duplicate", "FlooVerif.C10M.connectPairs_duplicate", "FlooVerif.C10M.place_taken", "FlooVerif.C10M.place_out_of_range", "FlooVerif.C10M.reindex_unbased", "FlooVerif.C10M.niRanges_array_unbased", "FlooVerif.C10M.genSam_beyond_width", "FlooVerif.C10M.genSam_overlap", "FlooVerif.C10M.compileNi_unconnected", "FlooVerif.C10M.compileNis_unconnected", "FlooVerif.C10M.dirStep_conflict", "FlooVerif.C10M.dirStep_unknown") +
            _t("C18", "FlooVerif.C18.range_error") +
            _t("C01U", "FlooVerif.C01U.overlap_rejected"),
     "C15": _t("C15", "FlooVerif.C15.out_independent_of_history", "FlooVerif.C15.mode_views", "FlooVerif.C15.full_files",
